@@ -45,13 +45,22 @@ func (t *TransactionBase) Success() {
 
 // You must acquire write lock on t.mutex before calling this function!
 func (t *TransactionBase) finish() {
+	if t.isDone() {
+		return
+	}
 	if t.finally != nil {
 		t.finally()
 	}
+	close(t.done)
+}
+
+// isDone reports whether the transaction has already completed.
+func (t *TransactionBase) isDone() bool {
 	select {
 	case <-t.done:
+		return true
 	default:
-		close(t.done)
+		return false
 	}
 }
 
@@ -68,6 +77,10 @@ func (t *TransactionBase) Fail(e error) {
 	t.mutex.Lock()
 	defer t.mutex.Unlock()
 
+	// A completed transaction stays completed: keep its original result.
+	if t.isDone() {
+		return
+	}
 	t.err = e
 	t.finish()
 }
